@@ -875,6 +875,13 @@ class Interp:
             return ''.join(str(a) for a in args) if args else ''
         if n not in self.w.classes and n.split('::')[-1] in self.w.classes:
             n = n.split('::')[-1]
+        if n not in self.w.classes and getattr(ty, 'args', None):
+            # explicit specialisation of a class template: registered under its full name  T<Arg>
+            for cand in self.w.classes:
+                if cand.startswith(n + '<') and all(strip_ns(a.name).split('::')[-1] in cand for a in ty.args if isinstance(a, Type)):
+                    self.fire('class-template-specialisation')
+                    n = cand
+                    break
         if n in self.w.classes and self.w.is_subclass(n, 'Error'):
             self.fire('exception-object')
             return Obj(n, {'msg': args[0] if args else ''})
@@ -998,6 +1005,8 @@ class Interp:
                 return self.w.enumerators[key]
         # class-scope enumerators: Class::item where enum nested in class
         if len(parts) >= 2 and parts[-1] in self.w.enumerators:
+            if parts[-1] in getattr(self.w, '_ambiguous_enumerators', ()):
+                raise EvalError('enumerator %s is declared in several enums and %s does not name its class' % (parts[-1], s))
             return self.w.enumerators[parts[-1]]
         # file-scope variables: current file first, then any
         v = self.file_var(s)
